@@ -506,3 +506,8 @@ add("parallel-init-point-number-read-late", F, ["C03"], "dfols/controller.py",
     "                self.model.change_point(k, x - self.model.xbase, rvec_list[0, :], eval_num)  # expect step, not absolute x", "                self.model.change_point(k, x - self.model.xbase, rvec_list[0, :], self.nx)  # expect step, not absolute x", "eval_num")
 add("parallel-init-drain-skips-the-current-result", F, ["C04"], "dfols/controller.py", "                    for j in range(k, num_directions + 1):", "                    for j in range(k + 1, num_directions + 1):", "C04-1")
 add("parallel-init-drain-reads-the-wrong-entry", F, ["C04"], "dfols/controller.py", "                        rvec_list, obj_list, num_samples_run, _, eval_num = eval_obj_results[j]", "                        rvec_list, obj_list, num_samples_run, _, eval_num = eval_obj_results[j - 1]", "C04-1")
+
+# ---- C20-8: to_dict and the None fields of an input-error result (pre-repair form of F20c)
+add("to-dict-converts-the-objective-unconditionally", F, ["C20"], "dfols/solver.py", "        soln_dict['obj'] = float(self.obj) if self.obj is not None else None\n", "        soln_dict['obj'] = float(self.obj)\n", "C20-8")
+add("s-to-dict-objective-guard-as-statement", S, ["C20"], "dfols/solver.py", "        soln_dict['obj'] = float(self.obj) if self.obj is not None else None\n",
+    "        soln_dict['obj'] = None\n        if self.obj is not None:\n            soln_dict['obj'] = float(self.obj)\n")
